@@ -1497,7 +1497,9 @@ RUN_OPTIONS = ('same', 'fresh', 'copy')
 RUN_GLOBALS = ('same', 'fresh', 'copy', 'cleared', 'stripped')
 RUN_CORE = tuple((o, g) for o in ('same', 'fresh') for g in ('same', 'fresh', 'copy'))
 RUN_ALL = tuple((o, g) for o in RUN_OPTIONS for g in RUN_GLOBALS)
-LIB_DEFINED = LIB_GLOBALS + ('diffLines',)          # what `stripped` removes from a globals object: the library's own top-level names
+LIB_PREFIXES = ('diff', 'unittest')                 # what `stripped` removes from a globals object: every name with the prefix of one of the
+                                                    # include scripts the runs load (guards, schemas, regexes, functions; unittest.bare's as well:
+                                                    # its guard left behind would keep a later <unittest.bare> from including diff.bare - the host's doing)
 HOST_RUN_FN = 'function hostRun(a, b):\n    include <diff.bare>\n    return diffLines(a, b)\nendfunction\nreturn hostRun(%s, %s)' % (IN_L, IN_R)
 RUN_FORMS = {                                       # form of a good run -> the scripts executed one after the other with the run's options
     'full': (SCRIPT_FULL_G,),
@@ -1613,8 +1615,8 @@ def run_runs(runner, steps):
                 glob.clear()
                 state[id(glob)] = None
             elif how[0] == 'stripped':
-                for name in LIB_DEFINED:
-                    glob.pop(name, None)
+                for name in [n for n in glob if n.startswith(LIB_PREFIXES)]:
+                    del glob[name]
                 state[id(glob)] = None
         options['globals'] = glob
         used.append((options, glob))
@@ -1662,7 +1664,7 @@ def stream_runs(ctx, runner):
     st = ctx.stream('diff-runs', 'RUN HISTORIES: 2-4 consecutive execute_script runs that EACH include <diff.bare> and call diffLines; for every run '
                     'after the first the host passes as OPTIONS the dict object of an earlier run again / a new dict / a shallow copy of an earlier '
                     'one (dict(options): shares every mutable value stored in it) and as GLOBALS the object of an earlier run again / a new dict / a '
-                    'shallow copy / the same object cleared / the same object with the library\'s own top-level names removed. Exhaustive families '
+                    'shallow copy / the same object cleared / the same object with every diff* / unittest* name removed. Exhaustive families '
                     '(objects taken from the run before): all %d transitions between 2 and 3 runs, the %d {same, fresh} x {same, fresh, copy} '
                     'transitions between 4 runs, and run / failing run / run as well as failing run / run / run with those %d transitions between the steps for each of %d kinds of '
                     'failing run (runtime error after a call, non-text arguments, statement limit reached in the caller, a second include that '
